@@ -16,7 +16,7 @@ import (
 )
 
 func main() {
-	mode := flag.String("mode", "updown", "updown|down|alter|cycle")
+	mode := flag.String("mode", "updown", "updown|down|alter|cycle|layout|inverse")
 	tier := flag.String("tier", "quick", "quick|thorough")
 	outDir := flag.String("out", "", "output directory")
 	flag.Parse()
@@ -34,6 +34,10 @@ func main() {
 		runAlterStage(w, *tier)
 	case "cycle":
 		runCycleStage(w, *tier)
+	case "layout":
+		runLayoutStage(w, *tier)
+	case "inverse":
+		runInverseStage(w, *tier)
 	default:
 		fmt.Fprintln(os.Stderr, "unknown mode")
 		os.Exit(2)
